@@ -36,6 +36,8 @@ func init() {
 			{ID: "C12.f", Template: "T-LOCK", Required: true,
 				Doc: "Read-modify-write atomicity: in a function that stores a mutable-while-serving field, every read of that field - direct or through a callee such as the copying accessor - happens while the field's lock is held in write mode. Filtering a snapshot taken under the read lock and storing the result under the write lock is race-free but loses a concurrent Route().",
 				Run: ruleC12f},
+			{ID: "C12.g", Template: "T-LOCK", Required: true, Run: ruleGlobalsUnderInstanceLocks,
+				Doc: "Package-level variables written on the mutator or request path (plain stores; sync/atomic calls are not stores) are written under a package-level lock. A lock that is a field protects one Container or WebService; Route() on two different services holds two different locks, so a shared counter written under 'the service lock' is a data race."},
 		},
 	})
 }
